@@ -667,4 +667,10 @@ if __name__ == "__main__":
     kdest = os.path.join(os.path.dirname(dest), "Kernels.lean")
     if not os.path.exists(kdest) or open(kdest).read() != ktext:
         open(kdest, "w").write(ktext); changed = True
-    print(json.dumps({"translated": done + sdone + kdone, "untranslated": failed + sfailed + kfailed, "changed": changed}, indent=1))
+    import t4
+    itext, idone, ifailed = t4.run_iter_mut(root)
+    idest = os.path.join(os.path.dirname(dest), "IterMutGen.lean")
+    if not os.path.exists(idest) or open(idest).read() != itext:
+        open(idest, "w").write(itext); changed = True
+    print(json.dumps({"translated": done + sdone + kdone + idone,
+                      "untranslated": failed + sfailed + kfailed + ifailed, "changed": changed}, indent=1))
